@@ -25,10 +25,11 @@ const (
 	WOpFlush
 	WOpGrow
 	WOpWriteEmpty
+	WOpReattach // SetExtensions called again with the same message state (only generated for C13)
 	numWOps
 )
 
-var wopNames = [...]string{"Write", "ReadFrom", "Copy", "WriteThrough", "FlushFragment", "Flush", "Grow", "Write0"}
+var wopNames = [...]string{"Write", "ReadFrom", "Copy", "WriteThrough", "FlushFragment", "Flush", "Grow", "Write0", "SetExtensions"}
 
 // WOp is one step of a writer history.
 type WOp struct {
@@ -349,6 +350,10 @@ func ExecHistory(r *eng.Run, wr *WRun, seed uint32, check func(step int)) {
 			ob.Err = w.FlushFragment()
 		case WOpFlush:
 			ob.Err = w.Flush()
+		case WOpReattach:
+			if wr.MS != nil {
+				w.SetExtensions(wr.MS)
+			}
 		case WOpGrow:
 			w.Grow(op.N)
 			if w.Available() < op.N {
@@ -376,6 +381,7 @@ type msgTrack struct {
 	startSize    int  // Size() when the open message started
 	wireFrames   int  // frames decoded so far in total
 	acceptedDone int  // accepted bytes already verified on the wire
+	buffered     bool // the open message was built by buffering calls only (Write, ReadFrom, Copy, Grow)
 }
 
 // C06: the fragmenting writer emits one well-formed message per flush and
@@ -399,13 +405,31 @@ func C06(r *eng.Run) {
 	wr.Size0 = wr.W.Size()
 	r.Note("C06 %s Size()=%d history: %v", cfg, wr.Size0, ops)
 	r.Res.Nontrivial = len(ops) > 1
-	tr := &msgTrack{onlyWrites: true, startSize: wr.Size0}
+	tr := &msgTrack{onlyWrites: true, buffered: true, startSize: wr.Size0}
 	ExecHistory(r, wr, seed, func(i int) { c06Step(r, wr, tr, i) })
 	if wr.Mutated != "" {
 		r.FailProp("C17", "caller_slice_modified", "%s: %s", cfg, wr.Mutated)
 	}
 	if cfg.Ctor == 4 {
+		// Back to the pool, and the next user of that size class (maybe on
+		// the other side) gets a writer from GetWriter again: whatever the
+		// pool hands out must be a well-behaved writer.
 		wsutil.PutWriter(wr.W)
+		cfg2 := cfg
+		cfg2.Client, cfg2.NoFlush, cfg2.Ext = r.T.Bool(sim.LSide), false, 0
+		if cfg2.Size < 7 {
+			cfg2.Size = 7 // smaller buffers cannot hold a client header (documented panic)
+		}
+		p2 := NewPipe(r, nil)
+		wr2 := &WRun{Cfg: cfg2, Ops: drawHistory(r, cfg2, 6), Pipe: p2}
+		wr2.W = NewW(cfg2, p2)
+		wr2.Size0 = wr2.W.Size()
+		if wr2.W == wr.W {
+			r.Probe("pool_returned_same_writer")
+		}
+		tr2 := &msgTrack{onlyWrites: true, buffered: true, startSize: wr2.Size0}
+		ExecHistory(r, wr2, seed+1, func(i int) { c06Step(r, wr2, tr2, i) })
+		wsutil.PutWriter(wr2.W)
 	}
 }
 
@@ -440,11 +464,16 @@ func c06Step(r *eng.Run, wr *WRun, tr *msgTrack, i int) {
 	switch op.Kind {
 	case WOpWrite, WOpWriteEmpty:
 		tr.sinceFlush = true
-	case WOpReadFrom, WOpCopy, WOpThrough:
+	case WOpReadFrom, WOpCopy:
 		tr.sinceFlush = true
 		tr.onlyWrites = false
+	case WOpThrough:
+		tr.sinceFlush = true
+		tr.onlyWrites = false
+		tr.buffered = false
 	case WOpFlushFrag:
 		tr.onlyWrites = false
+		tr.buffered = false
 	}
 	if op.Kind == WOpThrough && ob.Err == nil {
 		r.Probe("write_through_path")
@@ -521,7 +550,7 @@ func c06Step(r *eng.Run, wr *WRun, tr *msgTrack, i int) {
 				if tr.onlyWrites && pending <= tr.startSize && tr.frames != 1 {
 					r.Failf("fits_buffer_but_fragmented", "message of %d bytes written by plain Write calls into a writer of Size()=%d left as %d frames", pending, tr.startSize, tr.frames)
 				}
-				if cfg.NoFlush && tr.onlyWrites && tr.frames != 1 {
+				if cfg.NoFlush && tr.buffered && tr.frames != 1 {
 					r.Failf("noflush_fragmented", "DisableFlush: message of %d bytes left as %d frames", pending, tr.frames)
 				}
 				if tr.onlyWrites && pending <= tr.startSize {
@@ -532,10 +561,13 @@ func c06Step(r *eng.Run, wr *WRun, tr *msgTrack, i int) {
 			tr.frames = 0
 			tr.sinceFlush = false
 			tr.onlyWrites = true
+			tr.buffered = true
 			tr.startSize = ob.Size
 		}
-	case WOpWrite, WOpWriteEmpty, WOpGrow:
-		if cfg.NoFlush && tr.onlyWrites && len(newFrames) != 0 {
+	case WOpWrite, WOpWriteEmpty, WOpGrow, WOpReadFrom, WOpCopy:
+		// DisableFlush "denies Writer to write fragments": buffering calls
+		// grow the buffer instead.
+		if cfg.NoFlush && tr.buffered && len(newFrames) != 0 {
 			r.Failf("noflush_sent_early", "DisableFlush: step %d %s sent %d frame(s) before Flush", i, op, len(newFrames))
 		}
 	}
